@@ -6,6 +6,12 @@ SubgraphFormula - PROVED for all graphs G, H and all flag values, for an arbitra
     (G-edge present while induced is off) - s does not put (i1, i2) on (j1, j2) [nor, without symbreak, on (j2, j1)]
 - so every edge of H lands on an edge of G (and every non-edge on a non-edge when induced): an (induced) copy of H in G.
 
+CliqueFormula - PROVED for every graph, k and `symbreak`: a satisfies the formula iff s is a complete, functional, injective [with
+symbreak: non-decreasing] mapping [k] -> V(G) that never puts two positions i1 < i2 on a NON-adjacent pair j1 < j2 [without
+symbreak: in either order] - i.e. the image is a k-clique.  `non_edges(G)` is proved to yield, in combination order, exactly the
+non-adjacent pairs (every iteration yields iff its pair is not an edge; iteration counts at loop exit); its value at the call
+site is that filtered pair enumeration (`value_form`: the correspondence between the two statements is by reading).
+
 RamseyWitnessFormula:
 
 PROVED for every graph G, every k and both values of `symbreak`, for an arbitrary assignment a: a satisfies the formula iff
@@ -77,7 +83,9 @@ def force(pred):
 CONTRACTS = {
     (G_, 'GraphS.order'): {'assumed': 'Graph.order() is the number of vertices', 'params': {}, 'returns_expr': 'self.n'},
     (G_, 'GraphS.has_edge'): {'assumed': 'edge view (C16): the adjacency relation of the graph', 'params': {'u': 'int', 'v': 'int'},
-                              'returns_expr': 'gadj(self.gid, u, v)'},
+                              'returns_expr': 'gadj(self.gid, u, v)',
+                              # a simple graph: adjacency is symmetric (has_edge(v, u) is the same question)
+                              'ensures': ['gadj(self.gid, u, v) == gadj(self.gid, v, u)']},
     (G_, 'GraphS.normalize'): {'assumed': 'Graph.normalize returns a cnfgen Graph unchanged', 'params': {'cls': 'any', 'G': 'obj:GraphS', 'varname': 'any'},
                                'classmethod': True, 'returns_expr': 'G'},
     (F_, 'FormulaS.__init__'): {'assumed': 'formula_class() builds an empty formula of that class', 'params': {},
@@ -166,6 +174,58 @@ CONTRACTS.update({
             'implies(symbreak, m_nondecreasing(a, {m}.gid)) and '
             'forall(lambda i1, i2, j1, j2: implies(1 <= i1 and i1 < i2 and i2 <= H.n and 1 <= j1 and j1 < j2 and j2 <= G.n, {row})))'.format(m=M, row=SROW),
             'result._numvar == H.n * G.n',
+            'result.cls == formula_class',
+        ],
+    },
+})
+
+
+# ---- non_edges and CliqueFormula --------------------------------------------------------------------------------------------------
+CROW = '(implies(not gadj(G.gid, j1, j2), not ({a} and {b}) and implies(not symbreak, not ({x} and {y}))))'.format(
+    a=sv('i1', 'j1'), b=sv('i2', 'j2'), x=sv('i1', 'j2'), y=sv('i2', 'j1'))
+
+
+def crow(i1, i2, j1, j2):
+    return CROW.replace('i1', '(' + i1 + ')').replace('i2', '(' + i2 + ')').replace('j1', '(' + j1 + ')').replace('j2', '(' + j2 + ')')
+
+
+C1 = 'forall(lambda i1, i2, j1, j2: implies(1 <= i1 and i1 <= _a and i1 < i2 and i2 <= k and 1 <= j1 and j1 < j2 and j2 <= N, {}))'.format(crow('i1', 'i2', 'j1', 'j2'))
+C2 = 'forall(lambda i2, j1, j2: implies(_a + 1 < i2 and i2 <= _a + 1 + _b and 1 <= j1 and j1 < j2 and j2 <= N, {}))'.format(crow('_a + 1', 'i2', 'j1', 'j2'))
+C3 = 'forall(lambda j1, j2: implies(1 <= j1 and j1 <= _c and j1 < j2 and j2 <= N, {}))'.format(crow('_a + 1', '_a + 2 + _b', 'j1', 'j2'))
+C4 = 'forall(lambda j2: implies(_c + 1 < j2 and j2 <= _c + 1 + _it, {}))'.format(crow('_a + 1', '_a + 2 + _b', '_c + 1', 'j2'))
+
+CONTRACTS.update({
+    (S, 'non_edges'): {
+        'property': ['C02'],
+        'params': {'G': 'obj:GraphS'},
+        'raises': {},
+        # the pairs u < v of 1..N in combination order; an iteration yields its pair iff the pair is not an edge; none missing:
+        # the loops make exactly N-1 and N-u iterations
+        'loops': {0: {'inv': [], 'exit_ensures': ['_it == zmax(G.n - 1, 0)']},
+                  1: {'inv': [], 'counter': '_itv', 'exit_ensures': ['_itv == G.n - (1 + _it)'],
+                      'iter_ensures': ['_yielded_now == ite(gadj(G.gid, 1 + _it, 2 + _it + _itv), 0, 1)']}},
+        'yields_at': {0: ['len(yielded) == 2', 'yielded[0] == 1 + _it', 'yielded[1] == 2 + _it + _itv', 'yielded[1] <= G.n',
+                          'not gadj(G.gid, yielded[0], yielded[1])']},
+        # the same statement as a value, for the callers
+        'value_form': 'the value of non_edges(G) at a call site is the filtered pair enumeration its proved yield clauses describe (correspondence by reading)',
+        'returns_expr': 'combs2_where(1, G.n + 1, lambda u, v: not gadj(G.gid, u, v))',
+    },
+    (S, 'CliqueFormula'): {
+        'property': ['C02', 'C08', 'C10'],
+        'params': {'G': 'obj:GraphS', 'k': 'int', 'symbreak': 'bool', 'formula_class': 'class:FormulaS'},
+        'ghost_params': {'a': 'asg'},
+        'raises': {'ValueError': 'k < 0'},
+        'loops': {0: {'nest': [
+            dict(FR, counter='_a', ghost_at_entry={'S0': 'F.store'}, inv=KEEP2 + [acc(C1)]),
+            dict(FR, counter='_b', inv=KEEP2 + [acc('({} and {})'.format(C1, C2))]),
+            dict(FR, counter='_c', inv=KEEP2 + [acc('({} and {} and {})'.format(C1, C2, C3))]),
+            dict(FR, inv=KEEP2 + [acc('({} and {} and {} and {})'.format(C1, C2, C3, C4))]),
+        ]}},
+        'ensures': [
+            'sat(a, result.store) == (m_complete(a, {m}.gid) and m_functional(a, {m}.gid) and m_injective(a, {m}.gid) and '
+            'implies(symbreak, m_nondecreasing(a, {m}.gid)) and '
+            'forall(lambda i1, i2, j1, j2: implies(1 <= i1 and i1 < i2 and i2 <= k and 1 <= j1 and j1 < j2 and j2 <= G.n, {row})))'.format(m=M, row=CROW),
+            'result._numvar == k * G.n',
             'result.cls == formula_class',
         ],
     },
